@@ -8,8 +8,21 @@
 
   What is an oracle here is exactly what is NOT proved: `BigDec.Power` and the convergence of the
   Newton iteration.  The clauses that depend on the Newton result are stated under an explicit
-  contract (`NewtonUpper`, `NewtonLowerDec`), which the harness monitors on the real code on every
-  exact-spend purchase and in a parameter sweep (monitoring, not proof).
+  contract, which the harness monitors on the real code on every exact-spend purchase and in a
+  parameter sweep (monitoring, not proof).
+
+  CHANGED (pointwise contract): `solvent_with_exact_spend`, `exact_spend_no_more`, the exact-spend half
+  of `roundtrip_no_profit` and `exact_spend_tight` used to assume the GLOBAL contracts
+  `NewtonUpper I T L` / `NewtonLowerDec I T tol` (every sold amount, every net spend), which the real
+  Newton iteration is known to violate on dust inputs — a hypothesis no real trace satisfies.  They
+  now assume the contract only AT THE EXACT-SPEND PURCHASES THE HISTORY EXECUTES
+  (`NewtonUpperOn I T (besPoints I T st ops)`, `BesOkAt`, `NewtonLowerAt`), each point being decided
+  by the driver (`newtonUpperAtB`, `newtonLowerAtB`) and recomputed by the harness from the real
+  code on every executed purchase, so they apply to every real trace whose per-op monitor passed;
+  `solvent_blame` / `roundtrip_blame` name the blame set otherwise (some executed purchase violated
+  the contract).  `exact_spend_tight_step` is the step-level form with the tolerance `newtonTolRaw`
+  built from the regenerated constant `Gen.Iro.epsilonPrecision`.  The former statements are kept,
+  unweakened, as corollaries: `…_global`.
 -/
 import DymVerif.Lemmas.IroSolvent
 import DymVerif.Lemmas.IroVestInv
@@ -98,6 +111,34 @@ theorem solvent_core {I T cfg} (ops : List Op)
         exact hN ⟨o', by simp [ho'], hb⟩
   exact key ops _ (inv_init cfg) ⟨by simp [init], by intro p hp; simp [init] at hp⟩ hN
 
+/-- the same with the contract demanded only at the exact-spend purchases the history executes -/
+theorem solvent_core_at {I T cfg} (ops : List Op) (hN : NewtonUpperOn I T (besPoints I T (init cfg) ops)) :
+    Solv I (run I T (init cfg) ops) := by
+  have key : ∀ (ops : List Op) (st : State), Solv I st → NewtonUpperOn I T (besPoints I T st ops) →
+      Solv I (run I T st ops) := by
+    intro ops
+    induction ops with
+    | nil => intro st h _; exact h
+    | cons o ops ih => intro st h hN; exact ih _ (solv_step_at o h hN.head) hN.tail
+  exact key ops _ ⟨by simp [init], by intro p hp; simp [init] at hp⟩ hN
+
+/-- floor form of the solvency invariant: `Cost(0, sold) ≤ balance + trades` -/
+theorem solv_floor {I : Int → Int} {st : State} (hsolv : Solv I st) (hinv : Inv st) (p : Plan)
+    (hp : st.plan = some p) (hs : p.settled = false) : cost I p.L 0 p.sold ≤ st.planLiq + st.trades := by
+  have h1 := hsolv.2 p hp hs
+  have hd := decP_pos
+  rw [cost_eq]
+  by_cases hn : 0 ≤ (I p.sold - I 0) * pow10 p.L
+  · have hb := (tdiv_decP_of_nonneg _ hn).1
+    have : decP * ((I p.sold - I 0) * pow10 p.L).tdiv decP < decP * (st.planLiq + st.trades + 1) := by
+      have e : pow10 p.L * (I p.sold - I 0) = (I p.sold - I 0) * pow10 p.L := Int.mul_comm _ _
+      rw [e] at h1; omega
+    have := Int.lt_of_mul_lt_mul_left this (Int.le_of_lt hd)
+    omega
+  · have hpl := (hinv.pre p hp hs).2.2.2.2.1
+    have := tdiv_decP_of_neg ((I p.sold - I 0) * pow10 p.L) (by omega)
+    omega
+
 /-- **solvent_buy_sell**: along every history of create / buy / sell / enable / settle / claim / … (no
     exact-spend purchase) the unsettled plan's account holds at least the curve value `Cost(0, sold)`
     of the sold tokens minus one base unit per executed trade — for every curve and every L. -/
@@ -122,9 +163,35 @@ theorem solvent_buy_sell {I T cfg} (ops : List Op) (hno : ∀ o ∈ ops, isBes o
   · have := tdiv_decP_of_neg ((I p.sold - I 0) * pow10 p.L) (by omega)
     omega
 
-/-- the same including exact-spend purchases, CONDITIONAL on the Newton contract for the plan's
-    liquidity decimals -/
-theorem solvent_with_exact_spend {I T cfg} (ops : List Op) (hN : NewtonUpper I T cfg.liqDec)
+/-- **solvent_with_exact_spend**: the same including exact-spend purchases, CONDITIONAL on the Newton
+    contract AT THE PURCHASES THE HISTORY EXECUTED (`besPoints`: the (L, sold, net spend) of every
+    executed exact-spend purchase) — what the per-op monitor checks on the real code. -/
+theorem solvent_with_exact_spend {I T cfg} (ops : List Op) (hN : NewtonUpperOn I T (besPoints I T (init cfg) ops))
+    (p : Plan) (hp : (run I T (init cfg) ops).plan = some p) (hs : p.settled = false) :
+    pow10 p.L * (I p.sold - I 0) <
+      decP * ((run I T (init cfg) ops).planLiq + (run I T (init cfg) ops).trades + 1) ∧
+    cost I p.L 0 p.sold ≤ (run I T (init cfg) ops).planLiq + (run I T (init cfg) ops).trades :=
+  ⟨(solvent_core_at ops hN).2 p hp hs,
+   solv_floor (solvent_core_at ops hN) (reach_inv (I := I) (T := T) (cfg := cfg) ⟨ops, rfl⟩).1 p hp hs⟩
+
+/-- **solvent_blame**: if the plan account IS short of the curve value, then one of the executed
+    exact-spend purchases violated the Newton contract — the blame set is `besPoints` -/
+theorem solvent_blame {I T cfg} (ops : List Op) (p : Plan) (hp : (run I T (init cfg) ops).plan = some p)
+    (hs : p.settled = false)
+    (hbad : (run I T (init cfg) ops).planLiq + (run I T (init cfg) ops).trades < cost I p.L 0 p.sold) :
+    ∃ pt ∈ besPoints I T (init cfg) ops, ¬ NewtonUpperAt I T pt.1 pt.2.1 pt.2.2 := by
+  apply Classical.byContradiction
+  intro hne
+  have hN : NewtonUpperOn I T (besPoints I T (init cfg) ops) := by
+    intro pt hpt
+    apply Classical.byContradiction
+    intro hn
+    exact hne ⟨pt, hpt, hn⟩
+  have := (solvent_with_exact_spend ops hN p hp hs).2
+  omega
+
+/-- the former statement (global contract for the plan's liquidity decimals), a corollary -/
+theorem solvent_with_exact_spend_global {I T cfg} (ops : List Op) (hN : NewtonUpper I T cfg.liqDec)
     (p : Plan) (hp : (run I T (init cfg) ops).plan = some p) (hs : p.settled = false) :
     pow10 p.L * (I p.sold - I 0) <
       decP * ((run I T (init cfg) ops).planLiq + (run I T (init cfg) ops).trades + 1) :=
@@ -161,6 +228,40 @@ theorem demo_newton : NewtonUpper demoI demoT 18 := by
     trade was executed.  Exact-spend purchases are covered CONDITIONALLY on the Newton contract. -/
 theorem roundtrip_no_profit {I T} (st : State) (p : Plan) (hp : st.plan = some p) (a : Nat) (ops : List Op)
     (hops : ∀ o ∈ ops, isTradeBy a o = true)
+    (hN : NewtonUpperOn I T (besPoints I T st ops))
+    (p' : Plan) (hp' : (run I T st ops).plan = some p') (hsold : p'.sold = p.sold) :
+    (run I T st ops).liq a ≤ st.liq a ∧ (run I T st ops ≠ st → (run I T st ops).liq a < st.liq a) := by
+  rcases run_potential_at (I := I) (T := T) (a := a) ops st p hp hops hN with h | ⟨q, hq, _, hlt⟩
+  · rw [h]; exact ⟨Int.le_refl _, fun hne => absurd rfl hne⟩
+  · rw [hp'] at hq
+    cases hq
+    unfold potential at hlt
+    rw [hsold] at hlt
+    have hd := decP_pos
+    have : decP * (run I T st ops).liq a < decP * st.liq a := by omega
+    have := Int.lt_of_mul_lt_mul_left this (Int.le_of_lt hd)
+    exact ⟨by omega, fun _ => this⟩
+
+/-- **roundtrip_blame**: a round trip of one trader that does NOT lose contains an executed
+    exact-spend purchase that violated the Newton contract -/
+theorem roundtrip_blame {I T} (st : State) (p : Plan) (hp : st.plan = some p) (a : Nat) (ops : List Op)
+    (hops : ∀ o ∈ ops, isTradeBy a o = true)
+    (p' : Plan) (hp' : (run I T st ops).plan = some p') (hsold : p'.sold = p.sold)
+    (hbad : st.liq a < (run I T st ops).liq a) :
+    ∃ pt ∈ besPoints I T st ops, ¬ NewtonUpperAt I T pt.1 pt.2.1 pt.2.2 := by
+  apply Classical.byContradiction
+  intro hne
+  have hN : NewtonUpperOn I T (besPoints I T st ops) := by
+    intro pt hpt
+    apply Classical.byContradiction
+    intro hn
+    exact hne ⟨pt, hpt, hn⟩
+  have := (roundtrip_no_profit st p hp a ops hops hN p' hp' hsold).1
+  omega
+
+/-- the former statement (global contract), a corollary -/
+theorem roundtrip_no_profit_global {I T} (st : State) (p : Plan) (hp : st.plan = some p) (a : Nat) (ops : List Op)
+    (hops : ∀ o ∈ ops, isTradeBy a o = true)
     (hN : (∃ o ∈ ops, isBes o = true) → NewtonUpper I T p.L)
     (p' : Plan) (hp' : (run I T st ops).plan = some p') (hsold : p'.sold = p.sold) :
     (run I T st ops).liq a ≤ st.liq a ∧ (run I T st ops ≠ st → (run I T st ops).liq a < st.liq a) := by
@@ -187,18 +288,18 @@ example :
 
 /-! ## exact spend -/
 
-/-- **exact_spend_no_more** (CONDITIONAL on the Newton contract): whenever an exact-spend purchase is
-    executed, the tokens granted cost (by the plan's own `Cost`) no more than the spend net of the
-    fee, hence less than the spend. -/
+/-- **exact_spend_no_more** (CONDITIONAL on the Newton contract AT THIS PURCHASE, `BesOkAt`): whenever
+    an exact-spend purchase is executed, the tokens granted cost (by the plan's own `Cost`) no more than
+    the spend net of the fee, hence less than the spend. -/
 theorem exact_spend_no_more {I T} {st st' : State} {a : Nat} {spend mt : Int} (p : Plan) (hp : st.plan = some p)
-    (hN : NewtonUpper I T p.L) (h : exec I T st (.bes a spend mt) = .ok st') :
+    (hN : BesOkAt I T st (.bes a spend mt)) (h : exec I T st (.bes a spend mt) = .ok st') :
     ∃ p', st'.plan = some p' ∧ p.sold < p'.sold ∧ cost I p.L p.sold p'.sold < spend := by
   obtain ⟨q, net, fee, tokens, l1, ht, hmt, hf, htk, hmtk, _, _, _, _, rfl⟩ := doBes_ok h
   obtain ⟨hq, _, _⟩ := tradeable_ok ht
   rw [hp] at hq; cases hq
   obtain ⟨_, hfp, _, hnet⟩ := applyTakerFee_some hf
   simp only [Bool.false_eq_true, if_false] at hnet
-  have hc := hN p.sold net tokens htk
+  have hc := hN (p.L, p.sold, net) (by simp [besPoint, hp, hf]) tokens htk
   refine ⟨_, rfl, by simp only []; omega, ?_⟩
   simp only []
   rw [cost_eq]
@@ -213,14 +314,34 @@ theorem exact_spend_no_more {I T} {st st' : State} {a : Nat} {spend mt : Int} (p
   · have := tdiv_decP_of_neg ((I (p.sold + tokens) - I p.sold) * pow10 p.L) (by omega)
     omega
 
+/-- the former statement (global contract), a corollary -/
+theorem exact_spend_no_more_global {I T} {st st' : State} {a : Nat} {spend mt : Int} (p : Plan) (hp : st.plan = some p)
+    (hN : NewtonUpper I T p.L) (h : exec I T st (.bes a spend mt) = .ok st') :
+    ∃ p', st'.plan = some p' ∧ p.sold < p'.sold ∧ cost I p.L p.sold p'.sold < spend :=
+  exact_spend_no_more p hp (besOkAt_of_global hp _ (fun _ => hN)) h
+
 example :
     let r := step demoI demoT (run demoI demoT (init demoCfg) demoTrading) (.bes 1 10200000000000000000 1)
     r.2 = .ok ∧ r.1.plan.map (·.sold) = some 110996000000000000000 := by decide
+
+/-- the blame set of the demo history is one point, and the demo oracle meets the contract there -/
+example : besPoints demoI demoT (init demoCfg) demoSettled = [(18, 51000000000000000000, 9800000000000000000)] ∧
+    newtonUpperAtB demoI demoT 18 51000000000000000000 9800000000000000000 = true := by decide
 
 /-- Newton contract, lower half, at the level of the Newton result itself (raw 10^-18 units of the
     decimal representation): the integral difference is within `tol` below the requested spend. -/
 def NewtonLowerDec (I : Int → Int) (T : Int → Int → Option Int) (tol : Int) : Prop :=
   ∀ s p x, T s p = some x → p - tol ≤ I (s + x) - I s
+
+theorem newtonLowerAtB_iff (I : Int → Int) (T : Int → Int → Option Int) (tol s p : Int) :
+    newtonLowerAtB I T tol s p = true ↔ NewtonLowerAt I T tol s p := by
+  unfold newtonLowerAtB NewtonLowerAt
+  cases h : T s p with
+  | none => simp
+  | some x => simp
+
+/-- the tolerance at the regenerated `epsilonPrecision` = 12 -/
+example : newtonEpsRaw = 1000000 ∧ newtonTolRaw 1000000000000000000 = 13000000 := by decide
 
 theorem lt_tdiv_succ (n : Int) : n < decP * (n.tdiv decP + 1) := by
   by_cases hn : 0 ≤ n
@@ -233,7 +354,8 @@ theorem lt_tdiv_succ (n : Int) : n < decP * (n.tdiv decP + 1) := by
     contract with tolerance `tol` (raw 10^-18 units) the granted tokens cost more than
     `net − tol·10^L/10^18 − 1`, rational-free.  Holds since `TokensForExactInAmount` converts the
     Newton result with the supply decimals (finding F5 repaired). -/
-theorem exact_spend_tight {I T} {L : Nat} {tol sold net t : Int} (hL : L ≤ 18) (hlow : NewtonLowerDec I T tol)
+theorem exact_spend_tight_at {I T} {L : Nat} {tol sold net t : Int} (hL : L ≤ 18)
+    (hlow : NewtonLowerAt I T tol (scaleFromBase sold 18).raw (scaleFromBase net L).raw)
     (h : tokensForExactIn T L sold net = some t) :
     decP * net - pow10 L * tol < decP * (cost I L sold (sold + t) + 1) := by
   unfold tokensForExactIn at h
@@ -248,8 +370,8 @@ theorem exact_spend_tight {I T} {L : Nat} {tol sold net t : Int} (hL : L ≤ 18)
         subst h
         have e1 : pow10 18 = decP := by decide
         have e0 : pow10 (18 - 18) = 1 := by decide
-        simp only [scaleFromBase, e0, Int.mul_one] at hx
-        have hl := hlow _ _ _ hx
+        have hl := hlow _ hx
+        simp only [scaleFromBase, e0, Int.mul_one] at hx hl
         have hpow : pow10 (18 - L) * pow10 L = decP := by
           unfold pow10 decP
           rw [← Int.natCast_mul, ← Nat.pow_add, Nat.sub_add_cancel hL]; rfl
@@ -262,6 +384,33 @@ theorem exact_spend_tight {I T} {L : Nat} {tol sold net t : Int} (hL : L ≤ 18)
         have e2 : (net * pow10 (18 - L) - tol) * pow10 L = decP * net - pow10 L * tol := by
           rw [Int.sub_mul, Int.mul_assoc, hpow, Int.mul_comm net, Int.mul_comm tol]
         omega
+
+/-- the former statement (global lower contract with a free tolerance), a corollary -/
+theorem exact_spend_tight {I T} {L : Nat} {tol sold net t : Int} (hL : L ≤ 18) (hlow : NewtonLowerDec I T tol)
+    (h : tokensForExactIn T L sold net = some t) :
+    decP * net - pow10 L * tol < decP * (cost I L sold (sold + t) + 1) :=
+  exact_spend_tight_at hL (fun x hx => hlow _ _ x hx) h
+
+/-- **exact_spend_tight_step**: step-level form with the REAL tolerance.  In a reachable state with
+    liquidity decimals ≤ 18, an EXECUTED exact-spend purchase whose Newton result meets the lower
+    contract at this point with the tolerance `newtonTolRaw` (three times the iteration's absolute
+    epsilon `10^-epsilonPrecision` plus the relative stop `spend·10^-(epsilonPrecision−1)`, the constant
+    regenerated from the source) grants tokens whose cost is more than
+    `net − newtonTolRaw·10^L/10^18 − 1`. -/
+theorem exact_spend_tight_step {I T cfg st} (hr : Reach I T cfg st) (hL : cfg.liqDec ≤ 18)
+    {st' : State} {a : Nat} {spend mt : Int} (h : exec I T st (.bes a spend mt) = .ok st')
+    (hlow : ∀ pt, besPoint st (.bes a spend mt) = some pt →
+      NewtonLowerAt I T (newtonTolRaw (scaleFromBase pt.2.2 pt.1).raw) (scaleFromBase pt.2.1 18).raw (scaleFromBase pt.2.2 pt.1).raw) :
+    ∃ p p' net fee, st.plan = some p ∧ st'.plan = some p' ∧ applyTakerFee spend st.cfg.takerFee false = some (net, fee) ∧
+      decP * net - pow10 p.L * newtonTolRaw (scaleFromBase net p.L).raw < decP * (cost I p.L p.sold p'.sold + 1) := by
+  obtain ⟨q, net, fee, tokens, l1, ht, hmt, hf, htk, hmtk, _, _, _, _, rfl⟩ := doBes_ok h
+  obtain ⟨hq, _, _⟩ := tradeable_ok ht
+  have hLq : q.L ≤ 18 := by
+    have e1 := ((reach_inv hr).1.all q hq).2.2.2.2.2.2.2.2.2
+    have e2 : st.cfg = cfg := by obtain ⟨ops, rfl⟩ := hr; exact run_cfg I T ops _
+    rw [e1, e2]; exact hL
+  have hl := hlow (q.L, q.sold, net) (by simp [besPoint, hq, hf])
+  exact ⟨q, _, net, fee, hq, rfl, hf, exact_spend_tight_at hLq hl htk⟩
 
 /-- with 18-decimals liquidity the bound is simply `net − tol ≤ cost` -/
 theorem exact_spend_tight_18 {I T} {tol sold net t : Int} (hlow : NewtonLowerDec I T tol)
@@ -386,6 +535,7 @@ theorem trade_rejected {I T} {st : State} {a : Nat} {e : Err} (he : tradeable st
     | claim _ => simp [isTradeBy] at hop
     | claimv _ => simp [isTradeBy] at hop
     | xfer _ _ _ => simp [isTradeBy] at hop
+    | chown _ _ => simp [isTradeBy] at hop
   rcases hex with h | h
   · obtain ⟨h1, h2 | h2⟩ := step_of_exec_err h
     · exact ⟨h1, by rw [h2]; exact hne⟩
@@ -393,8 +543,9 @@ theorem trade_rejected {I T} {st : State} {a : Nat} {e : Err} (he : tradeable st
   · obtain ⟨h1, h2 | h2⟩ := step_of_exec_err h <;> exact ⟨h1, by rw [h2]; decide⟩
 
 /-- **trade_gating (1)**: before the start time (or while trading is not enabled) nobody but the
-    rollapp owner (actor 0) can buy, buy-exact-spend or sell; the state is untouched. -/
-theorem trade_gating_before_start {I T} {st : State} {p : Plan} (hp : st.plan = some p) {a : Nat} (ha : a ≠ 0)
+    rollapp's CURRENT owner (`st.owner`; it changes with MsgTransferOwnership) can buy,
+    buy-exact-spend or sell; the state is untouched. -/
+theorem trade_gating_before_start {I T} {st : State} {p : Plan} (hp : st.plan = some p) {a : Nat} (ha : a ≠ st.owner)
     (hpre : p.enabled = false ∨ st.now < p.startTime) (op : Op) (hop : isTradeBy a op = true) :
     (step I T st op).1 = st ∧ (step I T st op).2 ≠ .ok := by
   have : ∃ e, tradeable st a = .error e ∧ e ≠ .ok := by
@@ -480,9 +631,9 @@ theorem vesting_bounded {I T cfg st} (h : Reach I T cfg st) (p : Plan) (hp : st.
   have := (vestedBy_bounds p.vest st.now h1 h4).2
   exact ⟨h2, by omega, (hi.post p hp hs).2.2.2.1⟩
 
-/-- only the rollapp owner (actor 0) can claim vested liquidity, and only after settlement -/
+/-- only the rollapp's CURRENT owner can claim vested liquidity, and only after settlement -/
 theorem vesting_only_owner {I T} {st : State} (a : Nat)
-    (h : a ≠ 0 ∨ ∀ p, st.plan = some p → p.settled = false) :
+    (h : a ≠ st.owner ∨ ∀ p, st.plan = some p → p.settled = false) :
     (step I T st (.claimv a)).1 = st ∧ (step I T st (.claimv a)).2 ≠ .ok := by
   have hex : ∃ e, exec I T st (.claimv a) = .error e ∧ e ≠ .ok := by
     simp only [exec, doClaimVested]
@@ -502,6 +653,76 @@ theorem vesting_only_owner {I T} {st : State} (a : Nat)
 
 example : (step demoI demoT (run demoI demoT (init demoCfg) demoSettled) (.claimv 1)).2 = .denied ∧
     (step demoI demoT (run demoI demoT (init demoCfg) demoSettled) (.claimv 0)).2 = .ok := by decide
+
+/-- a successful vesting claim is made by the current owner, pays exactly what is booked as claimed,
+    out of the plan account, and touches nobody else's liquidity -/
+theorem claimv_pays_current_owner {I T} {st st' : State} {a : Nat} (h : exec I T st (.claimv a) = .ok st') :
+    a = st.owner ∧ st'.owner = st.owner ∧
+    ∃ p p', st.plan = some p ∧ st'.plan = some p' ∧ 0 < p'.vest.claimed - p.vest.claimed ∧
+      st'.liq a = st.liq a + (p'.vest.claimed - p.vest.claimed) ∧
+      st'.planLiq = st.planLiq - (p'.vest.claimed - p.vest.claimed) ∧
+      ∀ j, j ≠ a → st'.liq j = st.liq j := by
+  obtain ⟨p, amt, hp, _, ha, _, hpos, _, rfl⟩ := doClaimVested_ok h
+  refine ⟨ha, rfl, p, _, hp, rfl, ?_, ?_, ?_, ?_⟩
+  · simp only []; omega
+  · simp [upd]
+  · simp only []; omega
+  · intro j hj; simp [upd, hj]
+
+/-! ## the rollapp owner can change (x/rollapp MsgTransferOwnership)
+
+  The owner is re-read from the rollapp on every message (`GetTradeableIRO`, `EnableTrading`,
+  `ClaimVested`, `CreatePlan`, the taker-fee beneficiary): `State.owner`, changed by `Op.chown`.
+  Every theorem of this file quantifies over histories WITH ownership transfers (`Reach` ranges over
+  all op lists): the invariants, solvency, `vesting_bounded` (the total released to ALL successive
+  owners never exceeds the vesting amount, and the plan account holds exactly the unreleased rest)
+  and `vesting_not_faster_than_linear` (cumulative over owners). -/
+
+/-- only the current owner can hand the rollapp over, and not to himself -/
+theorem chown_only_owner {I T} {st : State} (a b : Nat) (h : a ≠ st.owner ∨ b = st.owner) :
+    (step I T st (.chown a b)).1 = st ∧ (step I T st (.chown a b)).2 ≠ .ok := by
+  have hex : ∃ e, exec I T st (.chown a b) = .error e ∧ e ≠ .ok := by
+    simp only [exec, doChown]
+    by_cases ha : a = st.owner
+    · rcases h with h | h
+      · exact absurd ha h
+      · exact ⟨.rej, by simp [ha, h], by decide⟩
+    · exact ⟨.denied, by simp [ha], by decide⟩
+  obtain ⟨e, he, hne⟩ := hex
+  obtain ⟨h1, h2 | h2⟩ := step_of_exec_err he
+  · exact ⟨h1, by rw [h2]; exact hne⟩
+  · exact ⟨h1, by rw [h2]; decide⟩
+
+/-- an executed transfer changes the owner and nothing else; from then on the FORMER owner is an
+    ordinary trader: gated before the start like everybody else, and refused by claim-vested -/
+theorem chown_hands_over {I T} {st st' : State} {a b : Nat} (h : exec I T st (.chown a b) = .ok st') :
+    a = st.owner ∧ st'.owner = b ∧ b ≠ a ∧ st' = { st with owner := b } ∧
+    (∀ p, st'.plan = some p → (p.enabled = false ∨ st'.now < p.startTime) → ∀ op, isTradeBy a op = true →
+      (step I T st' op).1 = st' ∧ (step I T st' op).2 ≠ .ok) ∧
+    ((step I T st' (.claimv a)).1 = st' ∧ (step I T st' (.claimv a)).2 ≠ .ok) := by
+  obtain ⟨ha, hb, rfl⟩ := doChown_ok h
+  have hne : a ≠ b := by rw [ha]; exact fun e => hb e.symm
+  refine ⟨ha, rfl, fun e => hne e.symm, rfl, ?_, ?_⟩
+  · intro p hp hpre op hop
+    exact trade_gating_before_start (st := { st with owner := b }) hp (by simpa using hne) hpre op hop
+  · exact vesting_only_owner (st := { st with owner := b }) a (Or.inl (by simpa using hne))
+
+/-- the rollapp is handed to a2 before the start (plan starts at 60, now is 0): the former owner a0 is
+    gated like any trader, a2 trades; after settlement a2 — not a0 — claims the vested liquidity, and
+    the taker fee's beneficiary is re-read as well -/
+example :
+    let st := run demoI demoT (init demoCfg) [.fund 0 1000000000000000000000, .fund 2 1000000000000000000000,
+      .create 1000000000000000000000 0 1000000000000000000 1000000000000000000 18 true 60 3600 ⟨500000000000000000⟩ 3 0,
+      .chown 0 2]
+    st.owner = 2 ∧ (step demoI demoT st (.chown 0 1)).2 = .denied ∧ (step demoI demoT st (.chown 2 2)).2 = .rej ∧
+    (step demoI demoT st (.buy 0 1000000000000000000 1000000000000000000000)).2 = .notStarted ∧
+    (step demoI demoT st (.buy 2 1000000000000000000 1000000000000000000000)).2 = .ok ∧
+    (let st2 := run demoI demoT st [.buy 2 5000000000000000000 1000000000000000000000, .settle 1000000000000000000000 true, .time 2]
+     (step demoI demoT st2 (.claimv 0)).2 = .denied ∧ (step demoI demoT st2 (.claimv 2)).2 = .ok ∧
+     (let st3 := run demoI demoT st2 [.claimv 2, .chown 2 1, .time 1]
+      (step demoI demoT st3 (.claimv 2)).2 = .denied ∧ (step demoI demoT st3 (.claimv 1)).2 = .ok ∧
+      (run demoI demoT st3 [.claimv 1]).plan.map (fun p => (p.vest.amount, p.vest.claimed)) = some (3000000000000000000, 3000000000000000000))) := by
+  decide
 
 /-- nothing is released before the vesting start -/
 theorem vesting_nothing_before_start {I T cfg st} (h : Reach I T cfg st) (p : Plan) (hp : st.plan = some p)
